@@ -125,7 +125,7 @@ func TestVerif_C13_store(t *testing.T) {
 		t.Fatalf("bootstrap: %v", err)
 	}
 	defer s.Close(true)
-	if _, err := s.WaitForLeader(10 * time.Second); err != nil {
+	if _, err := s.WaitForLeader(120 * time.Second); err != nil {
 		t.Fatalf("leader: %v", err)
 	}
 	ref, err := rdb.Open(filepath.Join(kit.Scratch(t), "ref.db"), false, true)
